@@ -14,7 +14,7 @@ from . import ops
 from .core import (OutOfSubset, PathEnd, ReturnEx, BreakEx, ContinueEx, PyRaise, exc_isinstance,
                    is_z3, z3num, z3bool, fresh_name)
 from .values import (NTuple, RECORD_TYPES, EnumVal, SliceVal, FuncVal, BoundMethod, Ext, Opaque, Poison,
-                     Inst, PyList, PyDict, SymSeq, StrSeq, Tok)
+                     Inst, PyList, PyDict, SymSeq, StrSeq, Tok, StrId)
 from .ops import OptionalVal, simp
 
 
@@ -337,6 +337,8 @@ class Interp(object):
             return StrSeq([Tok("str(%s)" % v, "digits", v)])
         if isinstance(v, Tok):
             return StrSeq([v])
+        if isinstance(v, StrId):
+            return StrSeq([Tok(str(v.ident), "strid", v.ident)])
         if isinstance(v, Opaque):
             return StrSeq([Tok("str(%s)" % v.name, "any", v)])
         raise OutOfSubset("str() of %r" % (v,))
@@ -756,6 +758,8 @@ EXT_CONSTANTS = {
     "numpy.pi": fractions.Fraction(_math.pi),
     "math.pi": fractions.Fraction(_math.pi),
     "numpy.newaxis": None,
+    "os.path.sep": "/",
+    "os.sep": "/",
 }
 
 _parse_cache = {}
